@@ -175,10 +175,9 @@ def seqencOp (args : List String) : String :=
             else "rt-differs"
           | _ => "rt-differs"
         -- RoundTripOK (executable specification) of `expected g opts` w.r.t. the declared transforms
-        let req : Spec.QuantReq := (zipIdxFrom 0 g.atts).filterMap fun ia =>
-          if encoderType ia.2 (eo.att ia.1) ≥ 2 then some (ia.2.uniqueId, (eo.att ia.1).quantBits.toNat) else none
+        let req : Spec.QuantReq := quantReq g eo
         let spec :=
-          match decodeGeometry { skip := [0, 1, 2, 3, 4] } { rest := bs } with
+          match decodeGeometry { skip := allTypes } { rest := bs } with
           | (some r, _) =>
             let c := Spec.check .sequential req g exp r.geometry
             if c == "ok" then "spec-ok" else if c.startsWith "skip" then "spec-skip" else "spec-violation"
